@@ -19,6 +19,7 @@ EXPLANATION = (
     ' Module-level objects of the printer modules (buffers, caches) may not be written to by any function, through local aliases either.'
     ' Third round: the module-state rule also covers depccg/utils.py, tree.py, cat.py and types.py (a memo shared by normalize / denormalize).'
     ' Fourth round: objects created in a class body are shared by all instances: methods that consume or change them are reported like writes to module-level objects.'
+    ' Fifth round: printers calling a setter of module-level state elsewhere in the package; vars(x) is x.'
 )
 TRUSTED = ['CPython ast', 'sa/pysym.py path walker', 'alias model in sa/effects.py (shallow constructors, element-returning methods)']
 
